@@ -517,6 +517,99 @@ def symmetry_rules(prog, P, R):
                             fk, o.line, show(c)[:80],
                             "true" if pol else "false"))
                     break
+    # ------------------------------------------------------------ R2.10
+    # a decisive strict comparison `x < y ? -1 : 1` answers 1 for x == y in
+    # both directions; it may only be reached where x != y is established
+    # for those very operands (the else-branch of `x == y`, or after an
+    # `if (x == y) return 0;`)
+    R.rule("R2.10", "a decisive `a < b ? -1 : 1` in compare() is reached "
+                    "only where a != b is established for the same a, b")
+    from selib import sym as _sym
+    ndec = 0
+    for u, f in sorted(prog.functions.items(),
+                       key=lambda kv: kv[1]["qn"]):
+        if f.get("n") != "compare" or strip_type(f.get("ret")) != "int" \
+                or f.get("dependent") or f.get("tk") == "pattern" \
+                or not f.get("body") or not f.get("cls") \
+                or len(f.get("params", ())) != 1:
+            continue
+        fk = short(f["qn"])
+
+        def norm(t):
+            return t.replace(" ", "").replace("this->", "")
+
+        def cb10(n, guards, line, f=f, fk=fk):
+            nonlocal ndec
+            if n.get("k") != "?:" or len(n.get("a", ())) != 3:
+                return
+            c, t_, e_ = n["a"]
+            if not (c.get("k") in ("bin", "op") and c.get("op") in (
+                    "<", ">") and len(c.get("a", ())) == 2):
+                return
+            vals = {show(t_).strip("()"), show(e_).strip("()")}
+            if vals != {"-1", "1"}:
+                return
+            a, b = norm(show(c["a"][0])), norm(show(c["a"][1]))
+            ndec += 1
+            ok = False
+            for g in _sym.flatten_guards(guards):
+                if g[0] == "case":
+                    continue
+                gc, pol = g
+                if gc.get("k") in ("bin", "op") and gc.get("op") in (
+                        "==", "!=") and len(gc.get("a", ())) == 2:
+                    x, y = norm(show(gc["a"][0])), norm(show(gc["a"][1]))
+                    if {x, y} == {a, b} and (gc["op"] == "!=") == bool(pol):
+                        ok = True
+                if gc.get("k") in ("call",) and gc.get("n") in (
+                        "eq", "neq") and len(gc.get("a", ())) == 2:
+                    x, y = norm(show(gc["a"][0])), norm(show(gc["a"][1]))
+                    if {x.strip("*"), y.strip("*")} == {a.strip("*"),
+                                                        b.strip("*")} \
+                            and (gc["n"] == "neq") == bool(pol):
+                        ok = True
+            if not ok:
+                # two-part values: whole != whole' is established and the
+                # other part is established equal, so this part differs
+                def part_of(x, w):
+                    return x != w and x.startswith(w) and x[len(w):][:1] in (
+                        ".", "-", "_")
+                wholes = []
+                equal_parts = []
+                for g in _sym.flatten_guards(guards):
+                    if g[0] == "case":
+                        continue
+                    gc, pol = g
+                    if gc.get("k") in ("bin", "op") and gc.get("op") in (
+                            "==", "!=") and len(gc.get("a", ())) == 2:
+                        x = norm(show(gc["a"][0]))
+                        y = norm(show(gc["a"][1]))
+                        if (gc["op"] == "!=") == bool(pol):
+                            wholes.append((x, y))
+                        else:
+                            equal_parts.append((x, y))
+                for x, y in wholes:
+                    if part_of(a, x) and part_of(b, y) and any(
+                            part_of(p, x) and part_of(q, y) and p != a
+                            for p, q in equal_parts):
+                        ok = True
+            if f["qn"] in ASYMMETRIC_OK and "as_integer_class" in show(c):
+                R.exception(f["qn"], "R2.10: " + ASYMMETRIC_OK[f["qn"]])
+                return
+            key = "%s@%s" % (fk, n.get("l"))
+            R.instance("R2.10", key, sample={"comparison": show(c)[:60],
+                                             "inequality_established": ok})
+            if not ok:
+                R.violation(
+                    "R2.10", fk, prog.loc(f, n.get("l")),
+                    "%s decides with `%s ? -1 : 1` on a path that has not "
+                    "established %s != %s: for equal values it answers 1 "
+                    "in both directions (antisymmetry lost), typically "
+                    "because the branch tests one member and compares "
+                    "another" % (fk, show(c)[:50], a[:25], b[:25]))
+        _sym.visit_guarded(f["body"], cb10)
+    R.floor("decisive strict comparisons in compare()", ndec, 5)
+
     # ------------------------------------------------------------ R2.9
     # (a) compare() must not consult hash values: unequal hashes imply
     #     unequal operands, but equal hashes do not imply equal operands, so
